@@ -199,9 +199,10 @@ func runC17Case(o *lib.Out, cl *cluster, in C17In) {
 			// /info without broadcast_address: the configured address is used instead
 			b.Stats = []TopicJSON{{TopicName: topic}}
 			p, _ := strconv.Atoi(port)
-			b.Info = &InfoJSON{Version: "1.3.0", BroadcastAddress: "", Hostname: "", HTTPPort: p + 7, TCPPort: 1}
-			nsqdAns[name] = fmt.Sprintf("(NStats true (Some ([], %s)))", cb(strconv.Itoa(p+7)))
-			nodeAns[name] = fmt.Sprintf("(NodeOk [] %s)", cb(strconv.Itoa(p+7)))
+			_ = p
+			b.Info = &InfoJSON{Version: "1.3.0", BroadcastAddress: "", Hostname: "", HTTPPort: st.Shadow, TCPPort: 1}
+			nsqdAns[name] = fmt.Sprintf("(NStats true (Some ([], %s)))", cb(strconv.Itoa(st.Shadow)))
+			nodeAns[name] = fmt.Sprintf("(NodeOk [] %s)", cb(strconv.Itoa(st.Shadow)))
 		default:
 			lib.Fatalf("nsqd spec %q", spec)
 		}
@@ -233,7 +234,7 @@ func runC17Case(o *lib.Out, cl *cluster, in C17In) {
 	}
 	dead := []string{cl.LD, cl.ND, "127.0.0.1:1"}
 	for _, st := range cl.N {
-		dead = append(dead, ":"+strconv.Itoa(st.Port+7)) // the address a tombstone derives from an /info without broadcast_address
+		dead = append(dead, ":"+strconv.Itoa(st.Shadow)) // the address a tombstone derives from an /info without broadcast_address
 	}
 	pf = append(pf, dead...)
 	world := fmt.Sprintf("(mkWorld [%s] [%s] %s %s)", strings.Join(wl, ";"), strings.Join(wn, ";"), wnode, cbl(pf))
@@ -671,7 +672,11 @@ func genConfig(r *lib.Rand, k int) C17In {
 	if in.Method == "PUT" {
 		in.BodyClass = []string{"valid", "valid", "valid", "valid", "invalid", "empty"}[r.Intn(6)]
 		if r.Chance(2) {
+			// over a connection a refusal could reset the 1 MiB upload in mid-flight: sent directly
 			in.BodyClass = "toobig"
+			if in.Transport == "wire" {
+				in.Transport, in.Remote, in.RemoteIP, in.LocalIP = "direct", in.LocalIP+":4000", in.LocalIP, ""
+			}
 		}
 		switch in.BodyClass {
 		case "valid":
